@@ -64,6 +64,52 @@ class Analysis:
         """Exact T_max per state (stopping games only)."""
         return self._get("tmax", lambda: oracle.expected_steps_max(self.g))
 
+    def exact_conditioned(self, prune):
+        """The conditioned game built from the EXACT reachability values (Player 1 restricted to its exact optimal
+        actions; with pruning every transition of a Player-1 / probabilistic state into a value-0 state removed and the
+        rest rescaled).  The solver's own conditioned game is this one or, after a tie split, a sub-game of it."""
+        def build():
+            g = self.g
+            v = self.reach["v"]
+            tl = []
+            for s in range(g.n):
+                tr = g.tl[s]
+                if g.players[s] == P1 and tr:
+                    opt = max(v[t] for _, t in tr)
+                    tl.append([(a, t) for a, t in tr if v[t] == opt and not (prune and v[t] == 0)])
+                elif g.players[s] == PR and prune:
+                    live = [(p, t) for p, t in tr if v[t] != 0]
+                    if len(live) != len(tr):
+                        tot = sum(p for p, _ in live)
+                        live = [(p / tot, t) for p, t in live]
+                    tl.append(live)
+                else:
+                    tl.append(list(tr))
+            return oracle.Game(g.players, tl, g.finals, g.rewards)
+        return self._get(("excond", prune), build)
+
+    @property
+    def tmax_solve(self):
+        """Largest expected number of steps any strategy pair can need in the input game or in either conditioned
+        game (conditioning rescales probabilities and can make plays longer): what a solve may legitimately need."""
+        def compute():
+            t = max(self.tmax)
+            for prune in (True, False):
+                c = self.exact_conditioned(prune)
+                if not oracle.is_stopping(c)[0]:
+                    raise OracleInconclusive("exact conditioned game is not stopping")
+                t = max(t, max(oracle.expected_steps_max(c)))
+            return t
+        return self._get("tmax_solve", compute)
+
+    def rmax_solve(self, prune):
+        """Exact upper bound for every expected reward the solve can legitimately reach (max-max total reward of
+        the exact conditioned game for that mode)."""
+        def compute():
+            c = self.exact_conditioned(prune)
+            return max(oracle.opt_total(c, opt1="max", opt2="max")["v"])
+        return self._get(("rmax", prune), compute)
+
     def reach_T(self, x):
         """Per-state bound T(s) with v*(s)-x(s) <= delta*T(s): T_max in stopping games, otherwise the
         expected number of steps in W minus finals of the chain (sigma*, tau_x); None if unavailable."""
